@@ -79,15 +79,21 @@ def analyse(chars, mode, out):
     if total != n:
         return dict(skipped="base-length")         # tabs in block comments etc. change lengths
     edits = 0
+    sites = []
     for ti, o in enumerate(offs + [n]):
         t = base[ti] if ti < len(base) else None
+        if mode in ("splice", "splice_tri"):
+            sites.append((ti, o, t))
+        elif t is not None and t.value is None:
+            # every character of a punctuator lexeme is an edit site (mixed spellings such as "|??!" for "||")
+            for k in range(len(O.LEXEME_OF.get(t.type, " "))):
+                sites.append((ti, o + k, t))
+    for ti, o, t in sites:
         if mode in ("splice", "splice_tri"):
             sp = ["\\", "\n"] if mode == "splice" else ["?", "?", "/", "\n"]
             items = list(chars[:o]) + sp + list(chars[o:])
             site = f"before:{t.type if t else 'EOF'}/after:{base[ti - 1].type if ti else 'BOF'}"
         else:
-            if t is None or t.value is not None:
-                continue
             c = chars[o]
             table = TRI if mode == "tri" else DI
             hit = None
